@@ -981,6 +981,12 @@ func (s *scanner) PeekN(n int) ([]byte, error) {
 	}
 
 	if s.pos+n > s.used {
+		if err == nil {
+			// The bytes are missing because the source failed (refill keeps
+			// the error back while it has data to deliver), not because the
+			// input ends here: do not let the caller mistake this for EOF.
+			err = s.err
+		}
 		return s.buf[s.pos:s.used], err
 	}
 
